@@ -1,19 +1,20 @@
 #!/usr/bin/env bash
 # False-alarm test: applies every behaviour-preserving refactoring under /verif/equivalent/<name>/patch.diff
 # to a scratch worktree of /repo and runs all quick checks against it; every check must exit 0.
-# usage: tools/run_equivalents.sh [name-substring]
+# usage: tools/run_equivalents.sh [name-substring]     env NAMES="r4 r14" restricts to exact names, CHECKS="C11 C16" to some checks
 set -u
 cd "$(dirname "$(readlink -f "$0")")/.."
 WT=/tmp/verif-equiv-$$
 for d in equivalent/*/; do
   name=$(basename "$d")
   case "$name" in *"${1:-}"*) ;; *) continue;; esac
+  if [ -n "${NAMES:-}" ]; then case " $NAMES " in *" $name "*) ;; *) continue;; esac; fi
   git -C /repo worktree remove --force "$WT" >/dev/null 2>&1
   git -C /repo worktree add -q --detach "$WT" HEAD || exit 2
   if ! git -C "$WT" apply "$PWD/$d/patch.diff"; then echo "$name: PATCH-DOES-NOT-APPLY"; git -C /repo worktree remove --force "$WT"; continue; fi
   mkdir -p "$WT/.verif-out"
   res=""
-  for p in C07 C10 C11 C12 C16 C17 C18 C19; do
+  for p in ${CHECKS:-C07 C10 C11 C12 C16 C17 C18 C19}; do
     out=$(VERIF_REPO_ROOT="$WT" VERIF_EVIDENCE_DIR="$WT/.verif-out" VERIF_REPLAY_DIR="$WT/.verif-out" ./check $p quick 2>&1); rc=$?
     if [ $rc -eq 0 ]; then res="$res $p:ok"; else res="$res $p:ALARM(rc=$rc)"; echo "$out" | grep -E "VIOLATION|key=|detail|harness" | head -6 | cut -c1-400; fi
   done
